@@ -206,11 +206,16 @@ def replay_constant(kind):
         t = rng.normal(size=(6, 6, 6)).astype(np.float32)
         m = Model(t)
         out = {}
+        bad = False
         for name, sub in (("constant", np.full((6, 6, 6), 3.0, dtype=np.float32)), ("zeros", np.zeros((6, 6, 6), dtype=np.float32))):
-            with np.errstate(all="ignore"):
-                r = m.align(sub, (1.0, 1.0, 1.0))
-            out[name] = {"shift": [float(v) for v in r.shift], "score": float(r.score)}
-        bad = any(not (np.isfinite(v["score"]) and np.all(np.isfinite(v["shift"]))) for v in out.values())
+            for ms in ((1.0, 1.0, 1.0), (0, 0, 0), (0, 0.3, 0), (0, 0, 1), (2.5, 0, 1)):
+                with np.errstate(all="ignore"):
+                    r = m.align(sub, ms)
+                    ls = np.asarray(m.landscape(sub, ms))
+                fin = bool(np.isfinite(r.score) and np.all(np.isfinite(r.shift)) and np.all(np.isfinite(ls)))
+                bad = bad or not fin
+                if not fin or ms == (1.0, 1.0, 1.0):
+                    out[f"{name},max_shifts={ms}"] = {"shift": [float(v) for v in r.shift], "score": float(r.score), "landscape_finite": bool(np.all(np.isfinite(ls)))}
         return bad, {"model": kind, **out}
 
     return run
